@@ -2,6 +2,21 @@
 // Included inside `pub mod tr { … }` after env/im_shim.vs, env/transition_spec.vs, env/schedule_shim.vs and
 // env/sched_guard_shim.vs.  Everything `assume_specification` / `external_body` / `uninterp` in this file
 // is an ASSUMPTION (listed in the header of slices/remove_segment.vs).
+//
+// Copied text (block "Schedule::replace_vehicle_by_dummy: the vocabulary of its contract" below): the whole-tour
+// case of remove_segment delegates to replace_vehicle_by_dummy, which is verified in slices/dummy_ops.vs; its contract is
+// stubbed in slices/remove_segment.vs with the text of that slice, so the vocabulary of the contract is copied here, text
+// unchanged (env/dummy_ops_shim.vs cannot be included next to this file: it copied svc_mask, svc_filter, has_service, ids_valid,
+// Schedule::{ids_ok, formations_ok, rs_ok, next_dummy_id}, lemma_tour_cost_le FROM this file):
+//   * from env/dummy_ops_shim.vs: ids_lose (there copied from env/update_tours_shim.vs), Schedule::{listed_ok, needs_dummy,
+//     rd_id_left, vehicle_gone_c, vehicle_gone, trips_in_new_dummy_c, trips_in_new_dummy, no_new_dummy, others_untouched_c,
+//     others_untouched, rd_formations_follow_c, rd_formations_follow, rd_unserved_follow_c, rd_unserved_follow,
+//     rd_transitions_follow_c, rd_transitions_follow};
+//   * from env/spawn_vehicle_shim.vs: Schedule::listing (the sorted id list of a vehicle type).
+// `Formations`, `moved_nd`, formations_elsewhere_untouched, moved_get_replacement come from env/train_formation_update_shim.vs
+// (module `tfu` of the slice, glob-imported).  No assumption comes with the copied text (open spec functions only).
+// The last block ("the whole-tour case of remove_segment") is NOT copied: depots_around, clip and the lemmas that carry
+// tfu_pre / has_service / svc_filter / un_sum / the moved activities from the removed nodes to the nodes of the whole tour.
 use vstd::std_specs::cmp::OrdSpec;
 
 // A-display: `{}` of a Segment (hand written Display impl of the repository; a no-op outside verus!)
@@ -286,7 +301,9 @@ pub open spec fn ids_valid(vehicles: VehicleMap, tours: TourMap, dummies: TourMa
     &&& forall|d: VehicleIdx| #[trigger] dummies.contains_key(d) ==> d is Dummy && (d->Dummy_0 as int) < counter
     &&& sorted_cmp(ids)
 }
-/// the outcome of Schedule::replace_vehicle_by_dummy (not under contract here)
+/// NOT used by slices/remove_segment.vs any more (there replace_vehicle_by_dummy is stubbed with its verified contract, see
+/// the block "Schedule::replace_vehicle_by_dummy: the vocabulary of its contract" below).  Kept only because slices/swaps_sem.vs / env/swaps_sem_shim.vs still carry the previous
+/// contract text of remove_segment (`r == spec_replace_by_dummy(..)`); to be deleted when that stub has been synced.
 pub uninterp spec fn spec_replace_by_dummy(s: &Schedule, v: VehicleIdx) -> Result<Schedule, String>;
 
 impl Schedule {
@@ -346,6 +363,11 @@ impl Schedule {
     pub open spec fn removes(&self, segment: Segment, v: VehicleIdx) -> bool {
         self.vehicles@.contains_key(v) && self.seg_removable(segment, v)
     }
+    /// the case split of remove_segment ("If the segment contains all non-depot nodes of the tour, the vehicle is replaced
+    /// by a dummy"): nothing but depots would be left.  For the tour of a real vehicle this is exactly when Tour::remove
+    /// returns no tour (C13.remove.no_tour_iff_no_activity_left), i.e. when remove_segment delegates to
+    /// replace_vehicle_by_dummy; otherwise (3 or more nodes kept) the provider keeps a tour
+    pub open spec fn whole_tour(&self, segment: Segment, v: VehicleIdx) -> bool { self.kept_nodes(segment, v).len() <= 2 }
     /// A-counter (magnitude): the maintenance counter of the shrunk tour is small (the counter is an
     /// uninterpreted atom of the rotation-cycle vocabulary, env/transition_spec.vs)
     pub open spec fn shrunk_counter_ok(&self, segment: Segment, v: VehicleIdx) -> bool {
@@ -610,4 +632,435 @@ impl Schedule {
     pub open spec fn id_left(&self, segment: Segment, v: VehicleIdx) -> bool {
         !has_service(&self.network, self.removed_nodes(segment, v)) || self.vehicle_counter <= 0xffff
     }
+}
+
+// =====================================================================================================
+// Schedule::replace_vehicle_by_dummy: the vocabulary of its contract (slices/dummy_ops.vs), copied from
+// env/dummy_ops_shim.vs / env/spawn_vehicle_shim.vs, text unchanged (see the header of this file)
+// =====================================================================================================
+/// `new` is `old` with one occurrence of `id` taken out (the others keep their order)
+pub open spec fn ids_lose(old: Seq<VehicleIdx>, new: Seq<VehicleIdx>, id: VehicleIdx) -> bool {
+    exists|p: int| 0 <= p < old.len() && old[p] == id && new == #[trigger] old.remove(p)
+}
+impl Schedule {
+    /// the sorted id list of a vehicle type
+    pub open spec fn listing(&self, vt: VehicleTypeIdx) -> Seq<VehicleIdx> { self.vehicle_ids_grouped_and_sorted@[vt]@ }
+    /// C10 ("vehicle … listings are sorted and match the stored tours") as far as the body needs it for the vehicle that goes:
+    /// its type has an id list (`vehicle_ids_grouped_and_sorted[&vehicle_type_id]`), the list is sorted and holds the id
+    /// (`binary_search(&vehicle_idx).unwrap()`)
+    pub open spec fn listed_ok(&self, v: VehicleIdx) -> bool {
+        let ty = self.type_of(v);
+        &&& self.vehicle_ids_grouped_and_sorted@.contains_key(ty)
+        &&& sorted_cmp(self.listing(ty))
+        &&& self.listing(ty).contains(v)
+    }
+    /// the vehicle serves a service trip: its trips have to be handed back in a new dummy tour
+    pub open spec fn needs_dummy(&self, v: VehicleIdx) -> bool { has_service(&self.network, self.tours@[v].nodes@) }
+    /// D11: an id for the new dummy tour is available, or none is needed
+    pub open spec fn rd_id_left(&self, v: VehicleIdx) -> bool { !self.needs_dummy(v) || self.vehicle_counter <= 0xffff }
+
+    // ---- C13: the documented effect, clause by clause (each clause is stated over the components of the new schedule
+    // -- `*_c`, opaque in the body of the function, established by a small lemma -- and read off the result by a wrapper) ----
+    /// "a vehicle left without activities disappears": no vehicle, no tour under the id; exactly one occurrence of the id
+    /// leaves the sorted id list of the vehicle's type, which stays sorted (and, if it was duplicate-free, does not hold
+    /// the id any more)
+    pub open spec fn vehicle_gone_c(&self, v: VehicleIdx, vehicles1: VehicleMap, tours1: TourMap, grouped1: Map<VehicleTypeIdx, Vec<VehicleIdx>>) -> bool {
+        let ty = self.type_of(v);
+        &&& !vehicles1.contains_key(v) && !tours1.contains_key(v)
+        &&& grouped1.contains_key(ty)
+        &&& ids_lose(self.listing(ty), grouped1[ty]@, v)
+        &&& sorted_cmp(grouped1[ty]@)
+        &&& self.listing(ty).no_duplicates() ==> grouped1[ty]@.no_duplicates() && !grouped1[ty]@.contains(v)
+    }
+    pub open spec fn vehicle_gone(&self, v: VehicleIdx, s1: &Schedule) -> bool {
+        self.vehicle_gone_c(v, s1.vehicles@, s1.tours@, s1.vehicle_ids_grouped_and_sorted@)
+    }
+    /// "displaced or removed service trips are handed back (… in a new dummy tour)": ONE new dummy tour under the next id
+    /// (an id not in use) holds exactly the service trips of the vehicle's tour, in order; the sorted list of dummy ids gains
+    /// exactly this id and stays sorted; the counter advances by one
+    pub open spec fn trips_in_new_dummy_c(&self, v: VehicleIdx, d1: TourMap, ids1: Seq<VehicleIdx>, counter1: usize) -> bool {
+        let id = self.next_dummy_id();
+        &&& !self.dummy_tours@.contains_key(id)
+        &&& d1.contains_key(id)
+        &&& d1 == self.dummy_tours@.insert(id, d1[id])
+        &&& d1[id].nodes@ == svc_filter(&self.network, self.tours@[v].nodes@) && d1[id].is_dummy && d1[id].network == self.network
+        &&& d1[id].caches_ok()
+        &&& ids_gain(self.dummy_ids_sorted@, ids1, id) && sorted_cmp(ids1)
+        &&& counter1 == self.vehicle_counter + 1
+    }
+    pub open spec fn trips_in_new_dummy(&self, v: VehicleIdx, s1: &Schedule) -> bool {
+        self.trips_in_new_dummy_c(v, s1.dummy_tours@, s1.dummy_ids_sorted@, s1.vehicle_counter)
+    }
+    /// "(none if it served no service trip)": dummy tours, their listing and the counter are unchanged
+    pub open spec fn no_new_dummy(&self, s1: &Schedule) -> bool {
+        s1.dummy_tours@ == self.dummy_tours@ && s1.dummy_ids_sorted@ == self.dummy_ids_sorted@ && s1.vehicle_counter == self.vehicle_counter
+    }
+    /// "all other vehicles' tours … stay untouched": every other vehicle, every other tour, the id lists of the other
+    /// types, every dummy tour that was there, the network
+    pub open spec fn others_untouched_c(&self, v: VehicleIdx, vehicles1: VehicleMap, tours1: TourMap, grouped1: Map<VehicleTypeIdx, Vec<VehicleIdx>>, d1: TourMap) -> bool {
+        let ty = self.type_of(v);
+        &&& vehicles1 == self.vehicles@.remove(v)
+        &&& tours1 == self.tours@.remove(v)
+        &&& grouped1 == self.vehicle_ids_grouped_and_sorted@.insert(ty, grouped1[ty])
+        &&& forall|d: VehicleIdx| #[trigger] self.dummy_tours@.contains_key(d) ==> d1.contains_key(d) && d1[d] == self.dummy_tours@[d]
+        &&& forall|d: VehicleIdx| #[trigger] d1.contains_key(d) && d != self.next_dummy_id() ==> self.dummy_tours@.contains_key(d)
+    }
+    pub open spec fn others_untouched(&self, v: VehicleIdx, s1: &Schedule) -> bool {
+        self.others_untouched_c(v, s1.vehicles@, s1.tours@, s1.vehicle_ids_grouped_and_sorted@, s1.dummy_tours@) && s1.network == self.network
+    }
+    /// "formations elsewhere … stay untouched": the formation table is what update_train_formation(Some(v), None, nodes
+    /// of v's tour) makes of it (its postcondition, slices/train_formation_update.vs); spelled out: the vehicle leaves the
+    /// formation of every activity of its tour (the others keep their order) and no other formation changes
+    pub open spec fn rd_formations_follow_c(&self, v: VehicleIdx, tf1: Formations) -> bool {
+        let nodes = self.tours@[v].nodes@;
+        let tf0 = self.train_formations@;
+        let rv: Option<Vehicle> = None;
+        &&& self.formations_elsewhere_untouched(nodes, tf0, tf1)
+        &&& self.moved_get_replacement(nodes, tf0, tf1, Some(v), rv)
+        &&& forall|n: NodeIdx| moved_nd(&self.network, nodes, n)
+                ==> (#[trigger] tf1[n]).formation@ == tf0[n].formation@.remove(first_pos(tf0[n].formation@, v))
+    }
+    pub open spec fn rd_formations_follow(&self, v: VehicleIdx, s1: &Schedule) -> bool { self.rd_formations_follow_c(v, s1.train_formations@) }
+    /// C09: the unserved-passenger pair changes by exactly - Σ unserved(old formation) + Σ unserved(new formation)
+    /// over the nodes of the tour
+    pub open spec fn rd_unserved_follow_c(&self, v: VehicleIdx, u1: (PassengerCount, PassengerCount)) -> bool {
+        let nodes = self.tours@[v].nodes@;
+        let tf0 = self.train_formations@;
+        let n = nodes.len() as int;
+        let rv: Option<Vehicle> = None;
+        &&& u1.0 == self.unserved_passengers.0 - self.un_sum(tf0, Some(v), rv, nodes, n, false, 0) + self.un_sum(tf0, Some(v), rv, nodes, n, true, 0)
+        &&& u1.1 == self.unserved_passengers.1 - self.un_sum(tf0, Some(v), rv, nodes, n, false, 1) + self.un_sum(tf0, Some(v), rv, nodes, n, true, 1)
+    }
+    pub open spec fn rd_unserved_follow(&self, v: VehicleIdx, s1: &Schedule) -> bool { self.rd_unserved_follow_c(v, s1.unserved_passengers) }
+    /// C15 / C10 / C09: the rotation cycles follow the new vehicles / tours (the postcondition of
+    /// update_transitions_and_violation_fast, slices/sched_guard.vs); the other vehicle types are untouched
+    pub open spec fn rd_transitions_follow_c(&self, v: VehicleIdx, trs1: Map<VehicleTypeIdx, Transition>, mv1: MaintenanceCounter, vehicles1: VehicleMap, tours1: TourMap) -> bool {
+        &&& forall|vt: VehicleTypeIdx| self.next_period_transitions@.contains_key(vt) <==> #[trigger] trs1.contains_key(vt)
+        &&& forall|vt: VehicleTypeIdx| #[trigger] trs1.contains_key(vt) ==> trs1[vt].wf(&self.network, tours1)
+        &&& forall|vt: VehicleTypeIdx, u: VehicleIdx| #![trigger trs1[vt].has_vehicle(u)] trs1.contains_key(vt)
+                ==> (trs1[vt].has_vehicle(u) <==> (vehicles1.contains_key(u) && vtype(vehicles1[u]) == vt))
+        &&& mv1 as int == viol_sum(trs1, sched_types(self))
+        &&& forall|vt: VehicleTypeIdx| #[trigger] trs1.contains_key(vt) && vt != self.type_of(v) ==> trs1[vt] == self.next_period_transitions@[vt]
+    }
+    pub open spec fn rd_transitions_follow(&self, v: VehicleIdx, s1: &Schedule) -> bool {
+        self.rd_transitions_follow_c(v, s1.next_period_transitions@, s1.maintenance_violation, s1.vehicles@, s1.tours@)
+    }
+}
+
+// =====================================================================================================
+// the whole-tour case of remove_segment: the preconditions of replace_vehicle_by_dummy at the call
+// (NOT copied: lemmas of this slice)
+// =====================================================================================================
+/// the node sequence `w` is the node sequence `m` with `lo` depot nodes in front of it and depot nodes behind it (the removed
+/// block of a tour that loses all its activities, within the whole tour)
+pub open spec fn depots_around(net: &Network, m: Seq<NodeIdx>, w: Seq<NodeIdx>, lo: int) -> bool {
+    &&& 0 <= lo && lo + m.len() <= w.len()
+    &&& forall|i: int| 0 <= i < m.len() ==> #[trigger] m[i] == w[lo + i]
+    &&& forall|j: int| 0 <= j < w.len() && !(lo <= j < lo + m.len()) ==> net.has(#[trigger] w[j]) && net.sp_node(w[j]).sp_is_depot()
+}
+/// how many of the first k nodes of `w` are nodes of `m` (see depots_around)
+pub open spec fn clip(x: int, len: int) -> int { if x < 0 { 0 } else if x > len { len } else { x } }
+
+/// depots have no passengers: the unserved-passenger sums over `w` are those over `m`
+pub proof fn lemma_un_sum_around(s: &Schedule, tf0: Formations, p: Option<VehicleIdx>, r: Option<Vehicle>, m: Seq<NodeIdx>, w: Seq<NodeIdx>, lo: int, k: int, after: bool, c: int)
+    requires depots_around(&s.network, m, w, lo), 0 <= k <= w.len(),
+    ensures s.un_sum(tf0, p, r, w, k, after, c) == s.un_sum(tf0, p, r, m, clip(k - lo, m.len() as int), after, c),
+    decreases k,
+{
+    if k > 0 {
+        lemma_un_sum_around(s, tf0, p, r, m, w, lo, k - 1, after, c);
+        let j = k - 1;
+        if lo <= j < lo + m.len() {
+            assert(m[j - lo] == w[lo + (j - lo)]);
+            assert(clip(k - lo, m.len() as int) == (j - lo) + 1);
+            assert(clip(j - lo, m.len() as int) == j - lo);
+        } else {
+            assert(s.network.sp_node(w[j]).sp_is_depot());
+            assert(unserved_at(&s.network, w[j], s.form(tf0, p, r, w[j], after), c) == 0);
+            assert(clip(k - lo, m.len() as int) == clip(j - lo, m.len() as int));
+        }
+    }
+}
+/// depots are skipped by the formation bookkeeping: if it gets through the first k nodes of `w`, it gets through the
+/// nodes of `m` among them
+pub proof fn lemma_all_ok_around(s: &Schedule, tf0: Formations, p: Option<VehicleIdx>, r: Option<Vehicle>, m: Seq<NodeIdx>, w: Seq<NodeIdx>, lo: int, k: int)
+    requires depots_around(&s.network, m, w, lo), 0 <= k <= w.len(), s.all_ok(tf0, p, r, w, k),
+    ensures s.all_ok(tf0, p, r, m, clip(k - lo, m.len() as int)),
+{
+    assert forall|j: int| 0 <= j < clip(k - lo, m.len() as int) && !s.network.sp_node(#[trigger] m[j]).sp_is_depot()
+        implies s.repl_ok(tf0[m[j]].formation@, p, r, m[j]) by {
+        assert(m[j] == w[lo + j]);
+        assert(!s.network.sp_node(w[lo + j]).sp_is_depot());
+    }
+}
+/// a service trip among the nodes of `w` is one of `m`
+pub proof fn lemma_has_service_around(net: &Network, m: Seq<NodeIdx>, w: Seq<NodeIdx>, lo: int)
+    requires depots_around(net, m, w, lo),
+    ensures has_service(net, w) == has_service(net, m),
+{
+    if has_service(net, m) {
+        let i = choose|i: int| 0 <= i < m.len() && #[trigger] net.sp_node(m[i]) is Service;
+        assert(m[i] == w[lo + i]);
+        assert(net.sp_node(w[lo + i]) is Service);
+    }
+    if has_service(net, w) {
+        let j = choose|j: int| 0 <= j < w.len() && #[trigger] net.sp_node(w[j]) is Service;
+        if lo <= j < lo + m.len() {
+            assert(m[j - lo] == w[lo + (j - lo)]);
+            assert(net.sp_node(m[j - lo]) is Service);
+        } else {
+            assert(net.sp_node(w[j]).sp_is_depot());
+        }
+    }
+}
+/// the activities among the nodes of `w` are those among the nodes of `m`
+pub proof fn lemma_moved_around(net: &Network, m: Seq<NodeIdx>, w: Seq<NodeIdx>, lo: int)
+    requires depots_around(net, m, w, lo),
+    ensures forall|n: NodeIdx| #![trigger moved_activity(net, m, n)] #![trigger moved_nd(net, w, n)] moved_activity(net, m, n) <==> moved_nd(net, w, n),
+{
+    assert forall|n: NodeIdx| #![trigger moved_activity(net, m, n)] #![trigger moved_nd(net, w, n)] moved_activity(net, m, n) <==> moved_nd(net, w, n) by {
+        if moved_activity(net, m, n) {
+            let i = choose|i: int| 0 <= i < m.len() && m[i] == n;
+            assert(m[i] == w[lo + i]);
+            assert(w.contains(n));
+        }
+        if moved_nd(net, w, n) {
+            let j = choose|j: int| 0 <= j < w.len() && w[j] == n;
+            if lo <= j < lo + m.len() {
+                assert(m[j - lo] == w[lo + (j - lo)]);
+                assert(m.contains(n));
+            } else {
+                assert(net.sp_node(w[j]).sp_is_depot());
+            }
+        }
+    }
+}
+/// the service trips of `w`, in order, are those of `m`
+pub proof fn lemma_svc_filter_around(net: &Network, m: Seq<NodeIdx>, w: Seq<NodeIdx>, lo: int)
+    requires depots_around(net, m, w, lo),
+    ensures svc_filter(net, w) == svc_filter(net, m),
+    decreases w.len(),
+{
+    if w.len() == 0 {
+        assert(m =~= w);
+    } else {
+        let j = w.len() - 1;
+        let w1 = w.drop_last();
+        assert(svc_mask(net, w).drop_last() =~= svc_mask(net, w1));
+        if m.len() == 0 || j >= lo + m.len() {
+            // the last node of `w` is a depot
+            let lo1 = if m.len() == 0 { 0 } else { lo };
+            assert(net.sp_node(w[j]).sp_is_depot());
+            assert(depots_around(net, m, w1, lo1)) by {
+                assert forall|i: int| 0 <= i < m.len() implies #[trigger] m[i] == w1[lo1 + i] by { assert(m[i] == w[lo + i]); }
+                assert forall|k: int| 0 <= k < w1.len() && !(lo1 <= k < lo1 + m.len()) implies net.has(#[trigger] w1[k]) && net.sp_node(w1[k]).sp_is_depot() by {
+                    assert(w1[k] == w[k]);
+                }
+            }
+            lemma_svc_filter_around(net, m, w1, lo1);
+            assert(!svc_mask(net, w).last());
+        } else {
+            // the last node of `w` is the last node of `m`
+            let m1 = m.drop_last();
+            assert(j == lo + m.len() - 1);
+            assert(m[m.len() - 1] == w[lo + (m.len() - 1)]);
+            assert(svc_mask(net, m).drop_last() =~= svc_mask(net, m1));
+            assert(depots_around(net, m1, w1, lo)) by {
+                assert forall|i: int| 0 <= i < m1.len() implies #[trigger] m1[i] == w1[lo + i] by { assert(m[i] == w[lo + i]); }
+                assert forall|k: int| 0 <= k < w1.len() && !(lo <= k < lo + m1.len()) implies net.has(#[trigger] w1[k]) && net.sp_node(w1[k]).sp_is_depot() by {
+                    assert(w1[k] == w[k]);
+                }
+            }
+            lemma_svc_filter_around(net, m1, w1, lo);
+            assert(svc_mask(net, w).last() == svc_mask(net, m).last());
+            assert(w.last() == m.last());
+        }
+    }
+}
+/// C09 / magnitudes: the precondition of the formation bookkeeping carries over from the nodes `m` to the nodes `w` = `m`
+/// with depots around it (depots have no formation and no passengers)
+pub proof fn lemma_tfu_pre_around(s: &Schedule, tf0: Formations, u0: (PassengerCount, PassengerCount), p: Option<VehicleIdx>, r: Option<Vehicle>, m: Seq<NodeIdx>, w: Seq<NodeIdx>, lo: int)
+    requires
+        depots_around(&s.network, m, w, lo), m.len() >= 1, w.no_duplicates(),
+        s.tfu_pre(tf0, u0, p, r, m),
+    ensures
+        s.tfu_pre(tf0, u0, p, r, w),
+{
+    let ml = m.len() as int;
+    assert forall|i: int| 0 <= i < w.len() && s.all_ok(tf0, p, r, w, i) implies s.node_pre(tf0, p, r, #[trigger] w[i]) by {
+        if lo <= i < lo + ml {
+            lemma_all_ok_around(s, tf0, p, r, m, w, lo, i);
+            assert(clip(i - lo, ml) == i - lo);
+            assert(m[i - lo] == w[lo + (i - lo)]);
+            assert(s.node_pre(tf0, p, r, m[i - lo]));
+        } else {
+            assert(s.network.has(w[i]) && s.network.sp_node(w[i]).sp_is_depot());
+        }
+    }
+    lemma_arith_around(s, tf0, u0.0 as int, p, r, m, w, lo, 0);
+    lemma_arith_around(s, tf0, u0.1 as int, p, r, m, w, lo, 1);
+}
+pub proof fn lemma_arith_around(s: &Schedule, tf0: Formations, u0: int, p: Option<VehicleIdx>, r: Option<Vehicle>, m: Seq<NodeIdx>, w: Seq<NodeIdx>, lo: int, c: int)
+    requires
+        depots_around(&s.network, m, w, lo), m.len() >= 1, 0 <= u0 <= u32::MAX,
+        forall|k: int| 0 <= k < m.len() ==> #[trigger] s.arith_ok_at(tf0, p, r, m, u0, k, c),
+    ensures
+        forall|k: int| 0 <= k < w.len() ==> #[trigger] s.arith_ok_at(tf0, p, r, w, u0, k, c),
+{
+    let ml = m.len() as int;
+    assert forall|k: int| 0 <= k < w.len() implies #[trigger] s.arith_ok_at(tf0, p, r, w, u0, k, c) by {
+        let a = clip(k - lo, ml);
+        let b = clip(k + 1 - lo, ml);
+        lemma_un_sum_around(s, tf0, p, r, m, w, lo, k + 1, false, c);
+        lemma_un_sum_around(s, tf0, p, r, m, w, lo, k, true, c);
+        lemma_un_sum_around(s, tf0, p, r, m, w, lo, k + 1, true, c);
+        if s.all_ok(tf0, p, r, w, k) { lemma_all_ok_around(s, tf0, p, r, m, w, lo, k); }
+        if s.all_ok(tf0, p, r, w, k + 1) { lemma_all_ok_around(s, tf0, p, r, m, w, lo, k + 1); }
+        if k < lo {
+            // only depots so far: nothing subtracted, nothing added
+            assert(a == 0 && b == 0);
+            assert(s.un_sum(tf0, p, r, m, 0, false, c) == 0 && s.un_sum(tf0, p, r, m, 0, true, c) == 0);
+        } else if k < lo + ml {
+            assert(a == k - lo && b == a + 1);
+            assert(s.arith_ok_at(tf0, p, r, m, u0, a, c));
+        } else {
+            // only depots are left: the state after the last node of `m`
+            assert(a == ml && b == ml);
+            assert(s.arith_ok_at(tf0, p, r, m, u0, ml - 1, c));
+            lemma_un_sum_mono(s, tf0, p, r, m, ml - 1, ml, true, c);
+            if s.all_ok(tf0, p, r, m, ml) { lemma_all_ok_prefix(s, tf0, p, r, m, ml - 1, ml); }
+        }
+    }
+}
+
+/// the effect of replace_vehicle_by_dummy on the formations, stated over the nodes of the whole tour (slices/dummy_ops.vs), is
+/// the one remove_segment documents over the removed nodes `m` (the tour is `m` with depots around it)
+pub proof fn lemma_rd_formations_around(s: &Schedule, v: VehicleIdx, m: Seq<NodeIdx>, lo: int)
+    requires depots_around(&s.network, m, s.tours@[v].nodes@, lo),
+    ensures forall|tf1: Formations| #[trigger] s.rd_formations_follow_c(v, tf1) ==> s.formations_follow(m, v, tf1),
+{
+    let w = s.tours@[v].nodes@;
+    let tf0 = s.train_formations@;
+    lemma_moved_around(&s.network, m, w, lo);
+    assert forall|tf1: Formations| #[trigger] s.rd_formations_follow_c(v, tf1) implies s.formations_follow(m, v, tf1) by {
+        assert forall|n: NodeIdx| #[trigger] tf1.contains_key(n) <==> tf0.contains_key(n) by {
+            assert(tf1.dom().contains(n) <==> tf0.dom().contains(n));
+        }
+        assert forall|n: NodeIdx| !moved_activity(&s.network, m, n) implies #[trigger] tf1[n] == tf0[n] by {
+            assert(!moved_nd(&s.network, w, n));
+        }
+        assert forall|n: NodeIdx| moved_activity(&s.network, m, n)
+            implies (#[trigger] tf1[n]).formation@ == tf0[n].formation@.remove(first_pos(tf0[n].formation@, v)) by {
+            assert(moved_nd(&s.network, w, n));
+        }
+    }
+}
+/// ... on the unserved passengers
+pub proof fn lemma_rd_unserved_around(s: &Schedule, v: VehicleIdx, m: Seq<NodeIdx>, lo: int)
+    requires depots_around(&s.network, m, s.tours@[v].nodes@, lo),
+    ensures forall|u1: (PassengerCount, PassengerCount)| #[trigger] s.rd_unserved_follow_c(v, u1) ==> s.unserved_follow(m, v, u1),
+{
+    let w = s.tours@[v].nodes@;
+    let tf0 = s.train_formations@;
+    let rv: Option<Vehicle> = None;
+    assert(clip(w.len() - lo, m.len() as int) == m.len());
+    lemma_un_sum_around(s, tf0, Some(v), rv, m, w, lo, w.len() as int, false, 0);
+    lemma_un_sum_around(s, tf0, Some(v), rv, m, w, lo, w.len() as int, true, 0);
+    lemma_un_sum_around(s, tf0, Some(v), rv, m, w, lo, w.len() as int, false, 1);
+    lemma_un_sum_around(s, tf0, Some(v), rv, m, w, lo, w.len() as int, true, 1);
+}
+/// ... on the dummy tours
+pub proof fn lemma_rd_trips_around(s: &Schedule, v: VehicleIdx, m: Seq<NodeIdx>, lo: int)
+    requires depots_around(&s.network, m, s.tours@[v].nodes@, lo),
+    ensures forall|d1: TourMap, ids1: Seq<VehicleIdx>, c1: usize| #[trigger] s.trips_in_new_dummy_c(v, d1, ids1, c1) ==> s.trips_handed_back(m, d1, ids1),
+{
+    lemma_svc_filter_around(&s.network, m, s.tours@[v].nodes@, lo);
+}
+/// a real tour that gives up the block [lo ..= hi] and keeps at most two nodes: the tour is the block with at most its two
+/// depots around it (no depot is stranded: only the depots at the ends can be kept)
+pub proof fn lemma_whole_tour_geom(t: &Tour, lo: int, hi: int)
+    requires
+        t.wf(), !t.is_dummy, tour_len_ok(t.nodes@), 0 <= lo <= hi < t.len(),
+        t.removable(lo, hi), t.rest(lo, hi + 1).len() <= 2,
+    ensures
+        depots_around(&t.network, t.mid(lo, hi + 1), t.nodes@, lo),
+        t.mid(lo, hi + 1).len() >= 1,
+        t.nodes@.no_duplicates(),
+{
+    let n = t.len();
+    let m = t.mid(lo, hi + 1);
+    let w = t.nodes@;
+    lemma_removed_block(t, lo, hi);
+    assert(t.rest(lo, hi + 1).len() == lo + (n - (hi + 1))) by { reveal(Tour::rest); }
+    assert(lo <= 1 && hi >= n - 2);
+    assert forall|j: int| 0 <= j < w.len() && !(lo <= j < lo + m.len()) implies t.network.has(#[trigger] w[j]) && t.network.sp_node(w[j]).sp_is_depot() by {
+        lemma_tour_kinds(t, j);
+        assert(j == 0 || j == n - 1);
+    }
+    assert forall|i: int, j: int| 0 <= i < w.len() && 0 <= j < w.len() && i != j implies w[i] != w[j] by {
+        if w[i] == w[j] { lemma_tour_distinct(t, i, j); }
+    }
+}
+/// the whole-tour case: the tour is the removed block with at most its two depots around it
+pub proof fn lemma_whole_tour_around(s: &Schedule, segment: Segment, v: VehicleIdx)
+    requires s.rs_ok(), s.removes(segment, v), s.whole_tour(segment, v),
+    ensures
+        depots_around(&s.network, s.removed_nodes(segment, v), s.tours@[v].nodes@, s.seg_lo(segment, v)),
+        s.removed_nodes(segment, v).len() >= 1,
+        s.tours@[v].nodes@.no_duplicates(),
+{
+    hide(Schedule::rs_ok);
+    hide(depots_around);
+    hide(usage_exact_for);
+    hide(ids_valid);
+    hide(sorted_cmp);
+    hide(tour_wf);
+    hide(Schedule::real_tour_ok);
+    lemma_provider(s, v);
+    let t = s.tours@[v];
+    let lo = s.seg_lo(segment, v);
+    let hi = s.seg_hi(segment, v);
+    assert(0 <= lo <= hi < t.len());
+    lemma_whole_tour_geom(&t, lo, hi);
+    assert(*t.network == *s.network);
+}
+
+/// the whole-tour case ("If the segment contains all non-depot nodes of the tour, the vehicle is replaced by a dummy"): what
+/// the call of replace_vehicle_by_dummy needs beyond rs_ok and listed_ok, and how its vocabulary (over the whole tour)
+/// relates to the one of remove_segment (over the removed nodes)
+pub proof fn lemma_whole_tour_case(s: &Schedule, segment: Segment, v: VehicleIdx)
+    requires
+        s.rs_ok(), s.removes(segment, v), s.whole_tour(segment, v),
+        s.tfu_pre(s.train_formations@, s.unserved_passengers, Some(v), None::<Vehicle>, s.removed_nodes(segment, v)),
+    ensures
+        // the precondition of the formation bookkeeping for the nodes of the whole tour
+        s.tfu_pre(s.train_formations@, s.unserved_passengers, Some(v), None::<Vehicle>, s.tours@[v].nodes@),
+        // the tour holds a service trip iff the removed block does: an id is needed in the same cases
+        s.needs_dummy(v) == has_service(&s.network, s.removed_nodes(segment, v)),
+        s.rd_id_left(v) == s.id_left(segment, v),
+        // the effect of replace_vehicle_by_dummy on the formations, the unserved passengers and the dummy tours, stated over the
+        // nodes of the whole tour (slices/dummy_ops.vs), is the one remove_segment documents over the removed nodes
+        forall|tf1: Formations| #[trigger] s.rd_formations_follow_c(v, tf1) ==> s.formations_follow(s.removed_nodes(segment, v), v, tf1),
+        forall|u1: (PassengerCount, PassengerCount)| #[trigger] s.rd_unserved_follow_c(v, u1) ==> s.unserved_follow(s.removed_nodes(segment, v), v, u1),
+        forall|d1: TourMap, ids1: Seq<VehicleIdx>, c1: usize| #[trigger] s.trips_in_new_dummy_c(v, d1, ids1, c1) ==> s.trips_handed_back(s.removed_nodes(segment, v), d1, ids1),
+{
+    hide(Schedule::rs_ok);
+    hide(Schedule::tfu_pre);
+    hide(Schedule::removes);
+    hide(depots_around);
+    hide(Schedule::rd_formations_follow_c);
+    hide(Schedule::rd_unserved_follow_c);
+    hide(Schedule::trips_in_new_dummy_c);
+    hide(Schedule::formations_follow);
+    hide(Schedule::unserved_follow);
+    hide(Schedule::trips_handed_back);
+    let m = s.removed_nodes(segment, v);
+    let w = s.tours@[v].nodes@;
+    let lo = s.seg_lo(segment, v);
+    lemma_whole_tour_around(s, segment, v);
+    lemma_tfu_pre_around(s, s.train_formations@, s.unserved_passengers, Some(v), None::<Vehicle>, m, w, lo);
+    lemma_has_service_around(&s.network, m, w, lo);
+    lemma_rd_formations_around(s, v, m, lo);
+    lemma_rd_unserved_around(s, v, m, lo);
+    lemma_rd_trips_around(s, v, m, lo);
 }
